@@ -57,10 +57,21 @@ def vaccess (e : TExpr) (t : V) (k : V → D) : D :=
   | some v => k v
   | none => vreject .access
 
+/-- the items of a list / tuple argument, left to right; `none`: a T access failed -/
+def ofItems : List ArgItem → V → Option (List V)
+  | [], _ => some []
+  | .const v :: r, t => (ofItems r t).map (v :: ·)
+  | .t e :: r, t => (tGet e t).bind (fun v => (ofItems r t).map (v :: ·))
+
 def ofArg (a : Arg) (t : V) : Verdict :=
   match a with
   | .const v => .pass v
   | .t e => match tGet e t with | some v => .pass v | none => .reject .access
+  | .val v => .pass v
+  | .seq tup items =>
+    match ofItems items t with
+    | some vs => .pass (if tup then V.tuple vs else V.list vs)
+    | none => .reject .access
 
 /-- `default=`: a rejection (never a fault) is replaced by the default's value -/
 def withDefault (dflt : Option Arg) (t : V) (d : D) : D :=
